@@ -1,0 +1,63 @@
+//go:build verif
+
+package interp
+
+// Verification hooks for the initialisation order of package-level variables
+// (property C15). Compiled only with -tags verif; nothing here changes the
+// behaviour of the interpreter.
+
+// VerifVarSpec describes one package-level variable specification (one child
+// of a varDecl node) as seen by the ordering code of cfg.go.
+type VerifVarSpec struct {
+	Names []string // identifiers declared by the specification
+	Deps  []int    // dependencies collected by getVarDependencies, in collection order, as indices into the list of specifications (-1: not one of them)
+}
+
+// VerifGlobalVarOrder compiles src (a complete source file) in this interpreter
+// without executing it and returns
+//   - specs: the package-level variable specifications in source order (the
+//     list getVars builds), each with the dependencies getVarDependencies
+//     collects for it, and
+//   - order: the children of the node returned by genGlobalVars, as indices
+//     into specs, i.e. the order in which Execute will initialise them.
+//
+// orderErr is the error of genGlobalVars (the "variable definition loop").
+func (interp *Interpreter) VerifGlobalVarOrder(src string) (specs []VerifVarSpec, order []int, orderErr, err error) {
+	p, err := interp.compileSrc(src, "", false)
+	if err != nil {
+		return nil, nil, nil, err
+	}
+	if err = genRun(p.root); err != nil {
+		return nil, nil, nil, err
+	}
+	sc := interp.scopes[p.pkgName]
+	vars := getVars(p.root)
+	index := map[*node]int{}
+	for i, n := range vars {
+		index[n] = i
+	}
+	pos := func(n *node) int {
+		if i, ok := index[n]; ok {
+			return i
+		}
+		return -1
+	}
+	for _, n := range vars {
+		s := VerifVarSpec{Names: []string{}, Deps: []int{}}
+		for i := 0; i < n.nleft && i < len(n.child); i++ {
+			s.Names = append(s.Names, n.child[i].ident)
+		}
+		for _, d := range getVarDependencies(n, sc) {
+			s.Deps = append(s.Deps, pos(d))
+		}
+		specs = append(specs, s)
+	}
+	vn, orderErr := genGlobalVars([]*node{p.root}, sc)
+	if orderErr != nil || vn == nil {
+		return specs, nil, orderErr, nil
+	}
+	for _, c := range vn.child {
+		order = append(order, pos(c))
+	}
+	return specs, order, nil, nil
+}
